@@ -1,0 +1,12 @@
+//go:build verif
+
+// Contracts for package geomhelp, read by the verification-condition generator in /verif (gvc).
+// This file contains comments only; it is compiled only with the build tag "verif" and adds no code.
+package geomhelp
+
+// type conversion of the rings ([][][2]float64 -> geom.Polygon), key by key
+//@ func FloatPolygonsToGeomPolygonsForAllKeys
+//@   trusted "converts element types only; same keys, same number of polygons per key; no panic, no effect"
+//@   ensures !isNil(result)
+//@   ensures forall(k Int, hasKey(result, k) == hasKey(floatersPerKey, k))
+//@   ensures forall(k Int, hasKey(floatersPerKey, k) ==> len(result[k]) == len(floatersPerKey[k]))
